@@ -506,17 +506,19 @@ def NoRevert (c : Comp) (l l' : LState) : Prop :=
 
 def keysOf (l : LState) (r : RState) : List String := l.workers.keys ++ r.workers.keys
 
+/-- a check on the two sides of a key, vacuous unless both are defined -/
+def agreeB {A B : Type} (f : A → B → Bool) : Option A → Option B → Bool
+  | some a, some b => f a b
+  | _, _ => true
+
 def compSyncB (c : Comp) (l : LState) (r : RState) : Bool :=
   match c with
   | .wset => (keysOf l r).all fun id => (l.workers.get id).map LWorker.static == (r.workers.get id).map RWorker.static
   | .status => (keysOf l r).all fun id =>
-      match l.workers.get id, r.workers.get id with
-      | some w, some e => w.status == parseStatus e.status
-      | _, _ => true
+      agreeB (fun (w : LWorker) (e : RWorker) => w.status == parseStatus e.status) (l.workers.get id) (r.workers.get id)
   | .book => (keysOf l r).all fun id =>
-      match l.workers.get id, r.workers.get id with
-      | some w, some e => w.assigned == e.assigned && w.running == e.running && w.events == e.events
-      | _, _ => true
+      agreeB (fun (w : LWorker) (e : RWorker) => w.assigned == e.assigned && w.running == e.running && w.events == e.events)
+        (l.workers.get id) (r.workers.get id)
   | .groups => (l.groups.keys ++ r.groups.keys).all fun g => l.groups.get g == r.groups.get g
   | .conns => (l.connectors.keys ++ r.connectors.keys).all fun n => l.connectors.get n == r.connectors.get n
   | .policy => l.policy == r.policy
@@ -526,13 +528,10 @@ def noRevertB (c : Comp) (l l' : LState) : Bool :=
   | .wset => (l.workers.keys ++ l'.workers.keys).all fun id =>
       (l'.workers.get id).map LWorker.static == (l.workers.get id).map LWorker.static
   | .status => (l.workers.keys ++ l'.workers.keys).all fun id =>
-      match l.workers.get id, l'.workers.get id with
-      | some w, some w' => w'.status == w.status
-      | _, _ => true
+      agreeB (fun (w w' : LWorker) => w'.status == w.status) (l.workers.get id) (l'.workers.get id)
   | .book => (l.workers.keys ++ l'.workers.keys).all fun id =>
-      match l.workers.get id, l'.workers.get id with
-      | some w, some w' => w'.assigned == w.assigned && w'.running == w.running && w'.events == w.events
-      | _, _ => true
+      agreeB (fun (w w' : LWorker) => w'.assigned == w.assigned && w'.running == w.running && w'.events == w.events)
+        (l.workers.get id) (l'.workers.get id)
   | .groups => (l.groups.keys ++ l'.groups.keys).all fun g => l'.groups.get g == l.groups.get g
   | .conns => (l.connectors.keys ++ l'.connectors.keys).all fun n => l'.connectors.get n == l.connectors.get n
   | .policy => l'.policy == l.policy
